@@ -52,6 +52,31 @@ SPECIAL = list('"\\<>&,;\'')
 ASCII_WORDS = ['a', 'b', 'Q', 'xy', 'Shop', 'Food', 'rent', 'Cash', 'Z9', 'n']
 SCRIPTS = ['é', 'ü', 'ß', 'ç', 'ñ', 'Ω', 'λ', 'Д', 'ж', 'я', '日', '本', '語', 'א', 'ש', 'ع', 'ب', '한', '글', 'क', 'ก', '𝒜', '€', '£']
 STATE_PREFIX = {0: '', 1: '* ', 2: '! '}
+# the second stream (beyond the property's quantifier, correspondence only): every byte value a field can hold
+# C0 control bytes and DEL (not NUL, which ends the line; not \t \n \v \f \r, which the line reader
+# treats as white space; not \x1e \x1f, which separate the register fields of this harness)
+CTL = [chr(c) for c in list(range(1, 9)) + list(range(14, 30)) + [127]]
+# valid UTF-8 that is not a letter: C1 controls, no-break space, soft hyphen, zero-width space, line
+# separator, BOM, the replacement character, the last code point
+NONLETTER = ['\x80', '\x85', '\x9f', '\xa0', '\xad', '\u200b', '\u2028', '\ufeff', '\ufffd', '\U0010ffff']
+# lone bytes >= 0x80 that are NOT valid UTF-8 (continuation bytes, lead bytes without continuation,
+# a latin-1 letter, 0xfe/0xff), written into python strings as surrogate escapes
+RAW = [chr(0xdc00 + b) for b in (0x80, 0x8f, 0xa0, 0xbf, 0xc0, 0xc3, 0xe9, 0xf8, 0xfe, 0xff)]
+TEXT_MODE = ['letters']        # 'letters' | 'ctl' (CTL + NONLETTER) | 'raw' (CTL + RAW)
+
+
+def byte_pool():
+    return CTL + (NONLETTER if TEXT_MODE[0] == 'ctl' else RAW)
+
+
+def in_quantifier(t):
+    """printable characters only (the property's quantifier): no control character, no format or
+    separator character other than the blank, no byte outside UTF-8"""
+    return all(c == ' ' or c.isprintable() for c in t)
+
+
+def u8(t):
+    return t.encode('utf-8', 'surrogateescape')
 SEP = '\x1f'
 ROWEND = '\x1e'
 
@@ -68,10 +93,17 @@ COMMS = [
     ('"<"', True, False, 'P'),
     (None, False, False, ''),
 ]
+# quoted symbols of the second stream: control bytes / non-letters, and bytes outside UTF-8
+COMMS_CTL = [('"\x01é\x7f"', False, True, 'S'), ('"\x85 \x1b"', True, True, 'PS')]
+COMMS_RAW = [('\udcff\x02', True, False, 'P'), ('z\udce9\udc80', False, True, 'S')]       # (ledger prints these without quotes)
 
 
 # ------------------------------------------------------------------------------ field texts
 def word(rng):
+    if TEXT_MODE[0] != 'letters' and rng.random() < 0.3:
+        b = rng.choice(byte_pool())
+        w = rng.choice(ASCII_WORDS + SCRIPTS[:6])
+        return rng.choice([b + w, w + b, w + b + b + w, b, w[:1] + b + w[1:]])
     r = rng.random()
     if r < 0.45:
         return rng.choice(ASCII_WORDS)
@@ -84,6 +116,8 @@ def gen_text(rng):
     """a field text: a special character at the start / at the end / doubled / alone / inside a
     word, or a random mixture"""
     c = rng.choice(SPECIAL) if rng.random() < 0.75 else rng.choice(PUNCT)
+    if TEXT_MODE[0] != 'letters' and rng.random() < 0.55:
+        c = rng.choice(byte_pool())
     w, w2 = word(rng), word(rng)
     k = rng.randrange(12)
     if k == 0:
@@ -143,7 +177,7 @@ def account_ok(t):
         return False
     if t.startswith(':') or t.endswith(':') or '::' in t:
         return False
-    if any(len(c.encode()) > 200 for c in t.split(':')):
+    if any(len(u8(c)) > 200 for c in t.split(':')):
         return False
     return True
 
@@ -296,12 +330,24 @@ def fmt_amount(comm, cents, decimals):
     return num + (' ' if sep else '') + sym
 
 
-def gen_journal(rng, idx):
+def gen_journal(rng, idx, mode='letters'):
     """-> list of Xact (abstract), the query word or None"""
+    TEXT_MODE[0] = mode
+    try:
+        return gen_journal_1(rng, idx, mode)
+    finally:
+        TEXT_MODE[0] = 'letters'
+
+
+def gen_journal_1(rng, idx, mode):
     comms = rng.sample(COMMS, rng.choice([1, 2, 2, 3]))
+    if mode != 'letters' and rng.random() < 0.4:
+        comms[rng.randrange(len(comms))] = rng.choice(COMMS_CTL if mode == 'ctl' else COMMS_RAW)
     decs = {c[0]: rng.choice([0, 2, 2, 3]) for c in comms}
     r = rng.random()
     qword = 'Zq' if r < 0.25 else 'Nomatch' if r < 0.28 else None      # Nomatch: an empty report
+    if mode == 'raw':
+        qword = None       # an account mask is matched as UTF-8: an account name with other bytes is an error
     acct_pool = []
     for _ in range(rng.choice([2, 3, 4])):
         a = gen_field(rng, account_ok)
@@ -637,7 +683,7 @@ def qty_string(cents, dec):
     return ('-' if neg else '') + s
 
 
-FLAGS = {(c[0] or ''): c[3] for c in COMMS}
+FLAGS = {(c[0] or ''): c[3] for c in COMMS + COMMS_CTL + COMMS_RAW}
 FLAGS[''] = 'P'      # the null commodity is not COMMODITY_STYLE_SUFFIXED
 
 
@@ -703,8 +749,11 @@ def text_of(b):
 
 
 def make_journal(ctx, rng, idx, jdir):
-    """generate one journal and write it; the commands run later (in parallel)"""
-    xs, qword = gen_journal(rng, idx)
+    """generate one journal and write it; the commands run later (in parallel); three in four draw
+    their texts from printable punctuation and letters, one in eight also from control bytes and
+    non-letter code points, one in eight from control bytes and bytes outside UTF-8"""
+    mode = {6: 'ctl', 7: 'raw'}.get(idx % 8, 'letters')
+    xs, qword = gen_journal(rng, idx, mode)
     fname = 'j%d.dat' % idx if rng.random() < 0.7 else rng.choice(['q"%d.dat', 'b\\%d.dat', 'é<&%d.dat']) % idx
     fmt, fkind = gen_format(rng)
     return make_record(xs, qword, fmt, fkind, 'j%d' % idx, os.path.join(jdir, fname), rng.random() < 0.4)
@@ -713,7 +762,7 @@ def make_journal(ctx, rng, idx, jdir):
 def make_record(xs, qword, fmt, fkind, jid, path, aux=False):
     jtext = render(xs)
     with open(path, 'wb') as f:
-        f.write(jtext.encode('utf-8'))
+        f.write(u8(jtext))
     query = [qword] if qword else []
     if qword:
         shown = [(x, [p for p in x.posts if qword.lower() in p.account.lower()]) for x in xs]
@@ -956,11 +1005,33 @@ def oracle(rec, rows, res):
             if csv_rows(text, 'bs') != want_l1 and csv_rows(text, 'rfc') != want_l1:
                 viol('csv-default:no-dialect-recovers', 'default csv output: no single conventional dialect recovers every row of this report',
                      text[:600], want_rows)
+    # "recovers the original field values": the note column against the note as the journal has
+    # it (the register's plain %(note), which check_journal_fields ties to the generated text: the
+    # posting's note followed by the transaction's), a line break inside it written as the two
+    # characters \n - evaluated here, not by asking ledger's join()
+    orig_l1 = [w[:7] + [r['note'].replace('\n', '\\n').encode('utf-8', 'surrogateescape').decode('latin-1')]
+               for w, r in zip(want_l1, rows)]
+    if len(lines) == len(orig_l1):
+        for ln, w in zip(lines, orig_l1):
+            recovered = [g for g in (csv_rows(ln + '\n', 'bs'), csv_rows(ln + '\n', 'rfc')) if g is not None and len(g) == 1 and len(g[0]) == len(w)]
+            if not recovered or any(g == [w] for g in recovered):
+                continue
+            col = [i for i in range(len(w)) if recovered[0][0][i] != w[i]][0]
+            viol('csv-default:%s-not-the-journal-text' % CSV_ORDER[col],
+                 'default csv output: the %s a csv reader recovers from this row is not the text the journal (and the register) has' % CSV_ORDER[col],
+                 dict(row=ln, recovered=recovered[0][0][col].encode('latin-1').decode('utf-8', 'replace')),
+                 w[col].encode('latin-1').decode('utf-8', 'replace'))
+            break
     if rec['fkind'] == 'all-rfc':
         t2 = outs['csv'][1].decode('latin-1')
         got = csv_rows(t2, 'rfc')
         if got != want_l1:
             viol('csv-rfc:not-recovered', 'csv written with quoted_rfc() is not recovered by an RFC 4180 reader', t2[:600], want_rows)
+        if got is not None and got != orig_l1 and len(got) == len(orig_l1) and all(len(g) == 8 for g in got):
+            col = [i for g, w in zip(got, orig_l1) for i in range(8) if g[i] != w[i]][0]
+            viol('csv-rfc:%s-not-the-journal-text' % CSV_ORDER[col],
+                 'csv written with quoted_rfc(): the %s an RFC 4180 reader recovers is not the text the journal (and the register) has' % CSV_ORDER[col],
+                 t2[:600], [w[col].encode('latin-1').decode('utf-8', 'replace') for w in orig_l1])
 
     # ---- emacs: one balanced, readable S-expression carrying the register's values
     etext = text_of(outs['emacs'][1])
@@ -1074,6 +1145,8 @@ def run(ctx, n_override=None):
         for what, name in (('rfc', 'csvd'), ('bs', 'csvd'), ('rfc', 'csv'), ('lisp', 'emacs'), ('xmltags', 'xml')):
             if what == 'rfc' and name == 'csv' and rec['fkind'] != 'all-rfc':
                 continue
+            if what == 'xmltags' and not in_quantifier(rec['journal'].replace('\n', '')):
+                continue      # expat reads XML 1.0 in UTF-8: it rejects control bytes and bytes outside UTF-8, which boost writes raw
             data = outs[name][1]
             if what == 'xmltags':
                 data = data.split(b'\n', 1)[1] if data.startswith(b'<?xml') else data    # without the declaration
@@ -1105,7 +1178,21 @@ def run(ctx, n_override=None):
             if m.get(k) != impl[k]:
                 res.disagreements.append(dict(name='C18/' + k, case=case, impl=text_of(impl[k])[:1500],
                                               model=text_of(m[k])[:1500] if k in m else m.get('error')))
-        oracle(rec, rec['rows'], res)
+        # the oracle speaks for the journals of the property's quantifier (printable characters); a
+        # journal with control bytes, non-letter code points or bytes outside UTF-8 is compared with
+        # the model only (boost writes such bytes raw: not well-formed XML 1.0)
+        inq = in_quantifier(rec['journal'].replace('\n', ''))
+        if inq:
+            oracle(rec, rec['rows'], res)
+        else:
+            res.count('journal-outside-quantifier (correspondence only)')
+        jt = rec['journal']
+        if any(c in jt for c in CTL):
+            res.count('journal-with:control-byte')
+        if any(c in jt for c in NONLETTER):
+            res.count('journal-with:non-letter-code-point')
+        if any(c in jt for c in RAW):
+            res.count('journal-with:byte-outside-utf8')
         texts = []
         for x, posts in rec['shown']:
             texts += [x.payee, x.code or ''] + x.notes
